@@ -132,6 +132,7 @@ type Spy struct {
 	Inner                  *persistence.MemoryMetastore
 	Loads, Latests, Stores int
 	Yield                  bool
+	YieldStoresOnly        bool // coarser interleaving: processes are pre-empted only right before an insert
 	Suffix                 string
 	Written                []StoreEvent // successful inserts, in order
 }
@@ -144,7 +145,7 @@ func NewSpy() *Spy { return &Spy{Inner: persistence.NewMemoryMetastore()} }
 func (s *Spy) Calls() int { return s.Loads + s.Latests + s.Stores }
 
 func (s *Spy) Load(ctx context.Context, id string, created int64) (*ae.EnvelopeKeyRecord, error) {
-	if s.Yield {
+	if s.Yield && !s.YieldStoresOnly {
 		vx.Yield()
 	}
 	s.Loads++
@@ -155,7 +156,7 @@ func (s *Spy) Load(ctx context.Context, id string, created int64) (*ae.EnvelopeK
 }
 
 func (s *Spy) LoadLatest(ctx context.Context, id string) (*ae.EnvelopeKeyRecord, error) {
-	if s.Yield {
+	if s.Yield && !s.YieldStoresOnly {
 		vx.Yield()
 	}
 	s.Latests++
